@@ -25,6 +25,12 @@ let handle (x : Sexp.t) : string =
   let impl = Sexp.field1 "impl" fs in
   let model = parse_text_raw_v code_variant dbg (big_coqstr text) in
   let mclass = match model with POk _ -> "ok" | PErr -> "err" | PPanic k -> "panic(" ^ kind_name k ^ ")" in
+  (* kernel cross-check: the three-way class; for Ok the number of renamings and the demoted raw system as a tree when its
+     expanded trees have at most 4000 nodes in total *)
+  Registry.set_model_lazy (fun () ->
+      match model with
+      | POk (raw, ren) -> Printf.sprintf "(c18 ok %d %s)" (List.length ren) (C08.sys_text_bounded 4000 (demote raw))
+      | _ -> "(c18 " ^ mclass ^ ")");
   match impl with
   | Sexp.List (Sexp.Atom "panic" :: loc :: rest) ->
       let loc = Sexp.atom loc in
